@@ -560,7 +560,7 @@ impl Gen {
                 }),
                 7 => Self::used_slot(&w.dslots, &mut self.rng).map(|ds| {
                     let lfn = if self.rng.chance(1, 3) { Some(*self.rng.pick(&[0u16, 1, 5, 40, 64, 255, 780])) } else { None };
-                    let reent = if self.rng.below(100) < self.p.reent_pct { Some(self.rng.below(24) as u8) } else { None };
+                    let reent = if self.rng.below(100) < self.p.reent_pct { Some(self.rng.below(28) as u8) } else { None };
                     Op::Iterate { ds, fl: self.rng.below(2) as u8, lfn, reent }
                 }),
                 8 => match (Self::used_slot(&w.dslots, &mut self.rng), Self::free_slot(&w.fslots, &mut self.rng)) {
@@ -628,8 +628,8 @@ impl Gen {
                 18 => Self::used_slot(&w.vslots, &mut self.rng).map(|vs| Op::Label { vs }),
                 19 => match self.rng.below(3) {
                     0 => Self::dead_slot(&w.vslots, &mut self.rng).map(|vs| Op::StaleVol { vs, m: self.rng.below(3) as u8 }),
-                    1 => Self::dead_slot(&w.dslots, &mut self.rng).map(|ds| Op::StaleDir { ds, m: self.rng.below(9) as u8 }),
-                    _ => Self::dead_slot(&w.fslots, &mut self.rng).map(|fs| Op::StaleFile { fs, m: self.rng.below(10) as u8 }),
+                    1 => Self::dead_slot(&w.dslots, &mut self.rng).map(|ds| Op::StaleDir { ds, m: self.rng.below(9) as u8 + if self.rng.chance(1, 4) { 64 } else { 0 } }),
+                    _ => Self::dead_slot(&w.fslots, &mut self.rng).map(|fs| Op::StaleFile { fs, m: self.rng.below(10) as u8 + if self.rng.chance(1, 4) { 64 } else { 0 } }),
                 },
                 20 => {
                     let s = match self.rng.below(8) {
